@@ -543,8 +543,9 @@ func valueNonNilAt(v ssa.Value, at *ssa.BasicBlock, depth int) bool {
 }
 
 func checkC06(c *Ctx, r *Report) {
-	r.Rules = []string{"E1 no dropped error", "E1' no swallowed error", "E2 checked close of closers over a fallible sink", "D9 invalid settings end in an error", "E3 CLI failure edge removes the target and exits non-zero"}
+	r.Rules = []string{"E1 no dropped error", "E1' no swallowed error", "E2 checked close of closers over a fallible sink", "D9 invalid settings end in an error", "E3 CLI failure edge removes the target and exits non-zero", "E2m closers over in-memory sinks completed before use", "E5 file references reach their reader as configured", "E1-dep dependency container writers (thorough)"}
 	r.Explanation = "Error-discipline analysis over go/ssa on the packaging call graph of all five packagers, the CLI, the signing helpers and the parser: (E1) every call whose callee returns an error has that result used, unless it falls under an enumerated idiom (reader-side Close, write into an in-memory buffer or hash decided by an interprocedural sink-root analysis, diagnostics, deferred cleanup Close discharged by E2, a named exception); (E1') from the failure edge of an `err != nil` test no path reaches a return with a nil error; (E2) every closer created over a fallible (caller-supplied) sink is closed/flushed, non-deferred and with its error used, before every return that may report success — or by a deferred closure that stores the Close error into the named result; (D9) the invalid cell of every finite setting evaluates to an error-only return set; (E3) the CLI's packaging-failure edge passes through os.Remove(target) and returns the error, and the root command exits with a non-zero constant. All paths and call sites of the code are covered, which is what 'every write index k' quantifies over; no fault is injected or executed."
+	r.Explanation += " (E2m) closers layered over an in-memory buffer are completed (non-deferred Close/Flush, also as the exit of a loop over a literal list of closers, also when the closer comes from a module factory) before every success-capable return and every read of the buffer. E1' also covers the error parameter of a tree-walk callback. (E5) a configuration field that names a file the packagers read may be assigned by the parser's environment expansion only if it is documented as expandable."
 	r.Assumptions = []string{
 		"third-party writers (archive/tar, compress/gzip, pgzip, zstd, xz, rpmpack, blakesmith/ar in quick tier) surface sink errors through the Write/Close error they return",
 		"writes into bytes.Buffer, strings.Builder and hash.Hash never fail",
@@ -599,6 +600,10 @@ func checkC06(c *Ctx, r *Report) {
 					if o.Pkg() != nil && o.Pkg().Path() == "strconv" {
 						return // parse of a setting with a documented default; D9 covers rpm epoch
 					}
+				}
+				if ok, why := notOverwritten(c, fn, call, val); !ok {
+					r.Fail("E1'", construct, c.instrPos(in), why)
+					return
 				}
 				if ok, why := notSwallowed(c, fn, val); !ok {
 					if fk == "rpm.asRPMFile" && strings.Contains(cname, "os.ReadFile") {
@@ -2221,4 +2226,89 @@ func checkReferenceRewrite(c *Ctx, r *Report) {
 		}
 	}
 	r.Floor("E5", n, 10)
+}
+
+// notOverwritten: a failure that is tested and then carried in a variable
+// must not be lost to the next iteration: from the failing edge of the nil
+// test no path may lead back to the call that produced the error without
+// passing a return (the re-executed call overwrites the variable, and a later
+// success turns the result into nil). Errors that are handed on (appended,
+// joined, wrapped) before the loop continues are exempt.
+func notOverwritten(c *Ctx, fn *ssa.Function, call ssa.CallInstruction, e ssa.Value) (bool, string) {
+	if e.Referrers() == nil {
+		return true, ""
+	}
+	def, ok := call.(ssa.Instruction)
+	if !ok || def.Block() == nil {
+		return true, ""
+	}
+	// the error is consumed other than by nil tests, phis and result cells?
+	for _, ref := range *e.Referrers() {
+		switch x := ref.(type) {
+		case *ssa.BinOp, *ssa.Phi, *ssa.Return, *ssa.DebugRef:
+		case *ssa.Store:
+			_ = x
+		default:
+			return true, "" // wrapped, appended, passed on: handled by E1'
+		}
+	}
+	if errResultIndex(fn.Signature) < 0 {
+		return true, ""
+	}
+	fail := nilTestFailEdge(e)
+	if fail == nil {
+		return true, ""
+	}
+	seen := map[*ssa.BasicBlock]bool{}
+	var dfs func(b *ssa.BasicBlock) bool
+	dfs = func(b *ssa.BasicBlock) bool {
+		if seen[b] {
+			return false
+		}
+		seen[b] = true
+		if _, isRet := b.Instrs[len(b.Instrs)-1].(*ssa.Return); isRet {
+			return false
+		}
+		if _, isPanic := b.Instrs[len(b.Instrs)-1].(*ssa.Panic); isPanic {
+			return false
+		}
+		if b == def.Block() {
+			return true
+		}
+		for _, s := range b.Succs {
+			if dfs(s) {
+				return true
+			}
+		}
+		return false
+	}
+	if fail == def.Block() || dfs(fail) {
+		// a plain `continue` after a failed probe discards the error on
+		// purpose (dead comparison, decided by E1); this rule is about errors
+		// that are meant to be returned: the value reaches a return operand
+		returned := false
+		var walk func(v ssa.Value, d int)
+		walk = func(v ssa.Value, d int) {
+			if v == nil || d > 4 || v.Referrers() == nil {
+				return
+			}
+			for _, ref := range *v.Referrers() {
+				switch x := ref.(type) {
+				case *ssa.Return:
+					returned = true
+				case *ssa.Phi:
+					walk(x, d+1)
+				case *ssa.Store:
+					if _, isCell := x.Addr.(*ssa.Alloc); isCell {
+						returned = true
+					}
+				}
+			}
+		}
+		walk(e, 0)
+		if returned {
+			return false, fmt.Sprintf("the failure tested at this call is kept in a variable and the loop goes on: the next execution of the call overwrites it, so a later success makes the function return nil although this call failed")
+		}
+	}
+	return true, ""
 }
